@@ -108,6 +108,7 @@ fn coq_ty(t: &Ty) -> String {
         Ty::Named(n) if n == "Elem" => "A".into(),
         Ty::Named(n) if n == "Init" => "(GIndex -> A)".into(),
         Ty::Named(n) if n == "VecT" => "(list A)".into(),
+        Ty::Named(n) if n == "Rows" => "(list (list A))".into(),
         Ty::Named(n) => format!("G{}", n),
         Ty::Opt(a) => format!("(option {})", coq_ty(a)),
         Ty::Res(a) => format!("(result {})", coq_ty(a)),
@@ -129,6 +130,8 @@ struct Tr<'a> {
     has_data: bool,
     // constructors (construct.rs): no receiver; the result is a model matrix built from an element list
     ctor_mode: bool,
+    // the function returns a Result (an early `return Err(..)` may leave a loop)
+    ret_result: bool,
     // the drivers of arithmetic.rs: several element types; the element size that matters is the output's (esU)
     arith: bool,
     // `-> &mut Self` in data mode: the function's value is the new matrix
@@ -176,7 +179,7 @@ fn data_fn(owner: &str, name: &str) -> bool {
 // functions that (transitively) contain the cycle-following `loop` of transpose: they take the element size and the fuel
 // construct.rs: the constructors (no receiver; element lists are built with the Vec primitives of Gen/Prelude.v)
 fn ctor_fn(owner: &str, name: &str) -> bool {
-    owner == "Matrix" && matches!(name, "new" | "with_capacity" | "with_default" | "with_value" | "with_initializer")
+    owner == "Matrix" && matches!(name, "new" | "with_capacity" | "with_default" | "with_value" | "with_initializer" | "try_from_array" | "try_from_vec" | "try_from_slice" | "from_iter")
 }
 
 // arithmetic.rs: the elementwise and scalar drivers.  (implicit element types, parameters, result type); the parameter names
@@ -259,6 +262,7 @@ impl<'a> Tr<'a> {
     }
     fn ty_of(&self, e: &Expr, env: &Env) -> Ty {
         match e {
+            Expr::Path(p) if tstr(p) == "C" && env.get("value") == Some(&Ty::Named("Rows".into())) => Ty::Usize,
             Expr::Path(p) => {
                 let n = tstr(p);
                 if n == "self" {
@@ -296,6 +300,7 @@ impl<'a> Tr<'a> {
                     Ty::Named(s) if s == "Vec" && name == "as_mut_ptr" => Ty::Named("RawPtr".into()),
                     Ty::Named(s) if s == "Vec" && name == "get_unchecked" => Ty::Named("Elem".into()),
                     Ty::Named(s) if s == "Vec" && name == "contains" => Ty::Bool,
+                    Ty::Named(s) if (s == "Rows" || s == "VecT") && name == "len" => Ty::Usize,
                     Ty::Named(s) if s == "Vec" && name == "is_empty" => Ty::Bool,
                     Ty::Named(s) if s == "AsIndex" => Ty::Usize,
                     Ty::Named(s) if s == "Shape" && name == "into" => Ty::Named(s),
@@ -475,9 +480,81 @@ impl<'a> Tr<'a> {
                 }
             }
             if self.ctor_mode {
-                // let [mut] data = <vector expression>;   the element list under construction
+                // let mut iter = iter.into_iter();   the rows still to come: the list itself
                 if let Stmt::Local(l) = s {
                     if let (Pat::Ident(pi), Some(init)) = (&l.pat, &l.init) {
+                        let nm = pi.ident.to_string();
+                        if tstr(&init.expr) == format!("{}.into_iter()", nm) && env.get(&nm) == Some(&Ty::Named("Rows".into())) {
+                            return self.block(rest, env, k);
+                        }
+                    }
+                    // let Some(row) = iter.next() else { .. };   the first of the remaining rows
+                    if let (Pat::TupleStruct(ts), Some(init)) = (&l.pat, &l.init) {
+                        if let (Some((_, div)), true) = (&init.diverge, tstr(&ts.path) == "Some" && ts.elems.len() == 1) {
+                            if let (Expr::MethodCall(nx), Expr::Block(b)) = (&*init.expr, &**div) {
+                                let it = tstr(&nx.receiver);
+                                if nx.method == "next" && env.get(&it) == Some(&Ty::Named("Rows".into())) {
+                                    let var = tstr(&ts.elems[0]);
+                                    let none = self.block(&b.block.stmts, &mut env.clone(), &mut |me2, v, _| me2.finish(v));
+                                    env.insert(var.clone(), Ty::Named("VecT".into()));
+                                    return format!("match {} with\n  | [] => {}\n  | {} :: {} =>\n  {}\n  end", it, none, cq(&var), it, self.block(rest, env, k));
+                                }
+                            }
+                        }
+                    }
+                }
+                // panic!("{}", Error::X);
+                if let Stmt::Macro(sm) = s {
+                    let toks = sm.mac.tokens.to_string().replace(' ', "");
+                    if tstr(&sm.mac.path) == "panic" {
+                        if let Some(pos) = toks.find("Error::") {
+                            return format!("Panic (PanicErr {})", &toks[pos + 7..]);
+                        }
+                    }
+                    return format!("(*UNSUPPORTED macro statement {}*)", tstr(&sm.mac.path));
+                }
+                // x += e  on a `let mut` local
+                if let Stmt::Expr(Expr::Binary(b), Some(_)) = s {
+                    if matches!(b.op, BinOp::AddAssign(_)) && self.mut_locals.contains(&tstr(&b.left)) {
+                        let x = tstr(&b.left);
+                        return self.expr(&b.right, env, &mut |me, v, env| {
+                            let t = me.fresh("t");
+                            format!("let* {} := uadd md {} {} in\n  let {} := {} in\n  {}", t, x, v, x, t, me.block(rest, env, k))
+                        });
+                    }
+                }
+                // for row in value { .. return Err(e); .. }: over the rows, an early `return Err` ends the loop and the function
+                if let Stmt::Expr(Expr::ForLoop(fl), _) = s {
+                    if let Expr::Path(ip) = &*fl.expr {
+                        if env.get(&tstr(ip)) == Some(&Ty::Named("Rows".into())) && self.has_data {
+                            let var = tstr(&fl.pat);
+                            let mut e2 = env.clone();
+                            e2.insert(var.clone(), Ty::Named("VecT".into()));
+                            let st = self.state_tuple();
+                            let unpack = self.state_unpack("st");
+                            let saved = self.mut_locals.clone();
+                            if self.ret_result {
+                                let body = self.block(&fl.body.stmts, &mut e2, &mut |me2, _, _| format!("Val (Ok {})", me2.state_tuple()));
+                                self.mut_locals = saved;
+                                let e = self.fresh("e");
+                                return format!(
+                                    "let* lr := for_try {} {} (fun {} st => {}\n    {}) in\n  match lr with\n  | Ok st => {}\n  {}\n  | Err {} => Val (Err {}) end",
+                                    tstr(ip), st, cq(&var), unpack, body, unpack, self.block(rest, env, k), e, e
+                                );
+                            }
+                            let body = self.block(&fl.body.stmts, &mut e2, &mut |me2, _, _| format!("Val {}", me2.state_tuple()));
+                            self.mut_locals = saved;
+                            return format!(
+                                "let* st := for_rows {} {} (fun {} st => {}\n    {}) in\n  {}\n  {}",
+                                tstr(ip), st, cq(&var), unpack, body, unpack, self.block(rest, env, k)
+                            );
+                        }
+                    }
+                }
+                // let [mut] data = <vector expression>;   the element list under construction
+                if let Stmt::Local(l) = s {
+                    let pat: &Pat = if let Pat::Type(pt) = &l.pat { &pt.pat } else { &l.pat };
+                    if let (Pat::Ident(pi), Some(init)) = (pat, &l.init) {
                         if pi.ident == "data" {
                             return self.expr(&init.expr, env, &mut |me, v, env| {
                                 env.insert("data".into(), Ty::Named("VecT".into()));
@@ -494,6 +571,13 @@ impl<'a> Tr<'a> {
                         let args: Vec<&Expr> = mc.args.iter().collect();
                         if name == "resize_with" && args.len() == 2 && tstr(args[1]) == "T::default" {
                             return self.expr(args[0], env, &mut |me, n, env| format!("let data := vec_resize_with data {} dflt in\n  {}", n, me.block(rest, env, k)));
+                        }
+                        if name == "shrink_to_fit" && args.is_empty() {
+                            // capacity is not part of the model
+                            return self.block(rest, env, k);
+                        }
+                        if (name == "extend" || name == "extend_from_slice") && args.len() == 1 {
+                            return self.expr(args[0], env, &mut |me, e, env| format!("let data := vec_extend data {} in\n  {}", e, me.block(rest, env, k)));
                         }
                         if name == "push" && args.len() == 1 {
                             return self.expr(args[0], env, &mut |me, e, env| format!("let data := vec_push data {} in\n  {}", e, me.block(rest, env, k)));
@@ -929,6 +1013,10 @@ impl<'a> Tr<'a> {
     fn expr(&mut self, e: &Expr, env: &mut Env, k: &mut dyn FnMut(&mut Self, String, &mut Env) -> String) -> String {
         match e {
             Expr::Lit(l) => k(self, tstr(l).trim_end_matches("usize").trim_end_matches("isize").to_string(), env),
+            Expr::Path(p) if self.ctor_mode && tstr(p) == "C" && env.get("value") == Some(&Ty::Named("Rows".into())) => {
+                // the const generic length of the array converted from
+                k(self, "(zlen value)".into(), env)
+            }
             Expr::Path(p) if self.aliases.contains_key(&tstr(p)) => {
                 let v = self.aliases[&tstr(p)].2.clone();
                 k(self, v, env)
@@ -1218,6 +1306,19 @@ impl<'a> Tr<'a> {
                     k(self, t.clone(), env)
                 )
             }
+            Expr::MethodCall(m) if self.ctor_mode && m.method == "collect" && tstr(&m.receiver).ends_with(".into_iter()") && {
+                let base = tstr(&m.receiver);
+                env.get(base.trim_end_matches(".into_iter()")) == Some(&Ty::Named("VecT".into()))
+            } =>
+            {
+                // row.into_iter().collect::<Vec<T>>(): the row itself
+                let base = tstr(&m.receiver);
+                k(self, cq(base.trim_end_matches(".into_iter()")), env)
+            }
+            Expr::MethodCall(m) if self.ctor_mode && tstr(e) == "value.first().map_or(0,|row|row.len())" => {
+                let _ = m;
+                k(self, "(rows_first_len value)".into(), env)
+            }
             Expr::MethodCall(m) if self.arith && (m.method == "collect" || m.method == "for_each") => {
                 // X.data.{iter|into_iter|iter_mut}() [.zip(&Y.data) | .enumerate()] {.map(cl).collect() | .for_each(cl)}
                 let mut chain: Vec<&ExprMethodCall> = vec![m];
@@ -1314,6 +1415,7 @@ impl<'a> Tr<'a> {
                         format!("let* {} := nn_{} es base bytes {} {} in\n  {}", t, name, vs[0], vs[1], k(me, t.clone(), env))
                     }
                     (Ty::Opt(_), "ok_or") => k(me, format!("(ok_or {} {})", vs[0], vs[1]), env),
+                    (Ty::Named(s), "len") if s == "Rows" || s == "VecT" => k(me, format!("(zlen {})", vs[0]), env),
                     (Ty::Named(s), "contains") if s == "Vec" && me.data_mode => k(me, format!("(vec_contains eqT {} {})", vs[0], vs[1]), env),
                     (Ty::Named(s), "get_unchecked") if s == "Vec" && me.data_mode => {
                         let t = me.fresh("g");
@@ -1519,6 +1621,11 @@ const TARGETS: &[(&str, &str)] = &[
     ("Matrix", "with_default"),
     ("Matrix", "with_value"),
     ("Matrix", "with_initializer"),
+    // convert.rs: TryFrom<[Vec<T>; C]>, TryFrom<Vec<Vec<T>>>, TryFrom<&[Vec<T>]>
+    ("Matrix", "try_from_array"),
+    ("Matrix", "try_from_vec"),
+    ("Matrix", "try_from_slice"),
+    ("Matrix", "from_iter"),
     // iter.rs: the immutable row / column views (data mode)
     ("Matrix", "iter_nth_major_axis_vector_unchecked"),
     ("Matrix", "iter_nth_minor_axis_vector_unchecked"),
@@ -1582,13 +1689,45 @@ fn main() {
                     let owner = tstr(&i.self_ty).split('<').next().unwrap().to_string();
                     let trait_name = i.trait_.as_ref().map(|(_, p, _)| p.segments.last().unwrap().ident.to_string());
                     let iter_impl = ptr_owner(&owner) && matches!(trait_name.as_deref(), Some("Iterator") | Some("DoubleEndedIterator"));
-                    let eq_impl = trait_name.as_deref() == Some("PartialEq") && owner == "Matrix";
+                    let eq_impl = (trait_name.as_deref() == Some("PartialEq") || trait_name.as_deref() == Some("FromIterator")) && owner == "Matrix";
                     if !(trait_name.is_none() || iter_impl || eq_impl || (trait_name.as_deref() == Some("MatrixIndex") && owner == "AxisIndex")) {
                         continue;
                     }
                     for ii in i.items {
                         if let ImplItem::Fn(f) = ii {
                             cx.fns.entry((owner.clone(), f.sig.ident.to_string())).or_insert(FnInfo { sig: f.sig, block: f.block });
+                        }
+                    }
+                    continue;
+                }
+                _ => {}
+            }
+        }
+    }
+    // convert.rs: the three fallible conversions from rows, told apart by the type they convert from
+    for p in std::env::args().skip(1) {
+        let src = std::fs::read_to_string(&p).unwrap();
+        let file = parse_file(&src).unwrap();
+        for it in file.items {
+            match it {
+                Item::Impl(i) => {
+                    let owner = tstr(&i.self_ty).split('<').next().unwrap().to_string();
+                    let Some((_, tp, _)) = i.trait_.as_ref() else { continue };
+                    let seg = tp.segments.last().unwrap();
+                    if owner != "Matrix" || seg.ident != "TryFrom" {
+                        continue;
+                    }
+                    let name = match tstr(&seg.arguments).as_str() {
+                        "<[Vec<T>;C]>" => "try_from_array",
+                        "<Vec<Vec<T>>>" => "try_from_vec",
+                        "<&[Vec<T>]>" => "try_from_slice",
+                        _ => continue,
+                    };
+                    for ii in i.items {
+                        if let ImplItem::Fn(f) = ii {
+                            if f.sig.ident == "try_from" {
+                                cx.fns.entry((owner.clone(), name.to_string())).or_insert(FnInfo { sig: f.sig, block: f.block });
+                            }
                         }
                     }
                 }
@@ -1619,6 +1758,9 @@ fn main() {
                 FnArg::Typed(t) => {
                     let mut ty = conv_ty(&t.ty, o);
                     let n = tstr(&t.pat).replace("mut", "");
+                    if (n_fn.starts_with("try_from_") && n == "value") || (n_fn == "from_iter" && n == "iter") {
+                        ty = Ty::Named("Rows".into());
+                    }
                     if arith_fn(o, n_fn) {
                         if n == "op" {
                             ty = Ty::Named("OpFn".into());
@@ -1649,6 +1791,7 @@ fn main() {
             data_mode: dm,
             has_data: false,
             ctor_mode: cm,
+            ret_result: matches!(ret, Ty::Res(_)),
             arith: am,
             ret_self,
             mut_locals: vec![],
